@@ -24,6 +24,7 @@ def ty_head_of(t):
 
 
 def run(ctx):
+    lock_rule(ctx)
     prog = mirq.Program(ctx.facts.mir())
     ctx.not_decided += ["the interleavings themselves (the analysis decides which shared-reference entry points can write shared state at all; an entry that writes is reported, one that does not cannot interfere)",
                         "data races inside dependencies (rayon, std) - trusted"]
@@ -175,3 +176,23 @@ def run(ctx):
                 ctx.report(r_pair, "%s|leak" % bid, "%s switches the shared serialisation mode to NoInclude and has a path to a return that does not restore AllowInclude (early return / `?`): the whole store keeps serialising inline afterwards" % bid,
                            b.file, b.blocks[e]["t"].get("line"), {"enter_bb": e, "return_bb": leak})
     ctx.floor(r_pair, n_br, 2, "functions that switch the serialisation mode")
+
+
+# ---------------------------------------------------------------------- LOCK
+def lock_rule(ctx):
+    """a mode switch that is written through try_write()/try_lock() is silently dropped whenever another
+    thread holds the lock at that instant; with readers around, the switch (or its reset) is lost"""
+    from synq import Syn, find, unparse
+    syn = Syn(ctx.facts.syn())
+    r = ctx.rule("C20.LOCK", "writes to the shared cells take the lock unconditionally (write()/lock()), never try_write()/try_lock() with a silently skipped failure")
+    n = 0
+    for f in syn.fns:
+        if f.body is None or f.file == "src/tests.rs":
+            continue
+        for c in find(f.body, "mcall"):
+            if c["method"] in ("write", "lock", "try_write", "try_lock", "try_read") and not c["args"] and re.search(r"self\.\w+$|\.config(\(\))?\.\w+$", unparse(c["recv"])):
+                n += 1
+                r.hit("%s|%s" % (f.qual, c["method"]))
+                if c["method"].startswith("try_"):
+                    ctx.report(r, "%s|%s" % (f.qual, c["method"]), "%s acquires `%s` with %s(): when another thread holds the lock the access is skipped without a trace, so a mode switch or its reset is lost under concurrent readers" % (f.qual, unparse(c["recv"]), c["method"]), f.file, c.get("l"))
+    ctx.floor(r, n, 1, "lock acquisitions on shared cells")
